@@ -1,5 +1,5 @@
 (** Extraction of the bdat engine (models + boolean spec checkers) to OCaml.
     Directives: ExtrOcamlBasic only (bool, option, unit, prod, list, sumbool, sumor). *)
 From Coq Require Import ExtrOcamlBasic.
-From Qv Require Import Common.Bytes Model.BdatTx Spec.BdatSpec.
-Extraction "m.ml" send_bdat spec_ok_C19_tx.
+From Qv Require Import Common.Bytes Gen.GenBdatRx Model.BdatTx Model.BdatRx Spec.BdatSpec Spec.BdatRxSpec.
+Extraction "m.ml" send_bdat spec_ok_C19_tx RX_KIB rx_session spec_ok_C19_rx.
